@@ -84,6 +84,35 @@ type c16Op struct {
 	XFF      []c16Str `json:"xff,omitempty"`
 	Ip       string   `json:"ip,omitempty"`   // allowed: textual address
 	Ip16     bool     `json:"ip16,omitempty"` // allowed: pass IPv4 in its 16-byte form
+	// histhub / histstats: a server started with Hist[0] and then reloaded with Hist[1:] in turn
+	// (hub.Reload and server.Reload with the same file, what server/main.go does on SIGHUP);
+	// the request is made after the last reload.  The op carries its whole history.
+	Hist []c16Conf `json:"hist,omitempty"`
+}
+
+// the two options of a configuration file: absent (nil) or present with a text
+type c16Conf struct {
+	Trusted *string `json:"t,omitempty"` // [app] trustedproxies
+	Allow   *string `json:"a,omitempty"` // [stats] allowed_ips
+	NoSec   bool    `json:"nosec,omitempty"` // an absent option takes its (otherwise empty) section with it
+}
+
+func c16OptText(o *string) string {
+	if o == nil {
+		return ""
+	}
+	return *o
+}
+
+func c16OptEq(a, b *string) bool {
+	return (a == nil) == (b == nil) && c16OptText(a) == c16OptText(b)
+}
+
+func c16CoqOpt(o *string) string {
+	if o == nil {
+		return "None"
+	}
+	return "(Some " + c16CoqStr(*o) + ")"
 }
 
 type c16Case struct {
@@ -263,6 +292,69 @@ type c16Env struct {
 	servers map[string]*c16Server
 	startup map[string]bool // configurations a server is started with
 	reloads int
+	// the server of the history ops: started with hist[0], reloaded with hist[1:]
+	hist        *c16Server
+	histApplied []c16Conf
+	histRpc     *GrpcClients // one (empty) set of RPC clients for all history servers
+	histStarts  int
+	histReloads int
+}
+
+func c16SetOption(config *goconf.ConfigFile, section, option string, v *string, nosec bool) {
+	config.RemoveOption(section, option)
+	if v != nil {
+		config.AddOption(section, option, *v)
+	} else if nosec && len(mustOptions(config, section)) == 0 {
+		config.RemoveSection(section)
+	}
+}
+
+func mustOptions(config *goconf.ConfigFile, section string) []string {
+	opts, err := config.GetOptions(section)
+	if err != nil {
+		return nil
+	}
+	return opts
+}
+
+// histServer: a server that has gone through exactly this history.  The server of the
+// previous op is used again when its history is a prefix of the wanted one (requests do not
+// change the configuration), otherwise a new server is started.
+func (e *c16Env) histServer(hist []c16Conf) *c16Server {
+	reuse := e.hist != nil && len(e.histApplied) <= len(hist)
+	if reuse {
+		for i, c := range e.histApplied {
+			if !c16OptEq(c.Trusted, hist[i].Trusted) || !c16OptEq(c.Allow, hist[i].Allow) || c.NoSec != hist[i].NoSec {
+				reuse = false
+				break
+			}
+		}
+	}
+	if !reuse {
+		config := goconf.NewConfigFile()
+		c16SetOption(config, "app", "trustedproxies", hist[0].Trusted, hist[0].NoSec)
+		c16SetOption(config, "stats", "allowed_ips", hist[0].Allow, hist[0].NoSec)
+		cfg, b, _, hub, r, _ := CreateBackendServerForTestFromConfig(e.t, config)
+		// Hub.Reload also reloads the RPC clients; the test helper creates hubs without (the server never does)
+		if e.histRpc == nil {
+			e.histRpc, _ = NewGrpcClientsForTestWithConfig(e.t, goconf.NewConfigFile(), nil)
+		}
+		hub.rpcClients = e.histRpc
+		e.hist = &c16Server{hub: hub, backend: b, router: r, config: cfg}
+		e.histApplied = []c16Conf{hist[0]}
+		e.histStarts++
+	}
+	s := e.hist
+	for _, c := range hist[len(e.histApplied):] {
+		c16SetOption(s.config, "app", "trustedproxies", c.Trusted, c.NoSec)
+		c16SetOption(s.config, "stats", "allowed_ips", c.Allow, c.NoSec)
+		// server/main.go on SIGHUP
+		s.hub.Reload(s.config)
+		s.backend.Reload(s.config)
+		e.histApplied = append(e.histApplied, c)
+		e.histReloads++
+	}
+	return s
 }
 
 // serverFor: a server started with the configuration when it is one of the start-up
@@ -516,6 +608,68 @@ func c16Run(e *c16Env, c *c16Case, sink *caseSink) (trace []string, outs []strin
 			trace = append(trace, fmt.Sprintf("(OCfgStats %d %s %s %s %s %s, VStatus %d)", ep, c16CoqStr(cfg), c16CoqStr(o.Allow),
 				c16CoqStr(peer), c16CoqStrs(c16FromStrs(xr)), c16CoqStrs(c16FromStrs(xff)), status))
 			outs = append(outs, fmt.Sprintf("status:%d", status))
+		case "histhub", "histstats":
+			if len(o.Hist) == 0 {
+				continue
+			}
+			for _, c := range o.Hist {
+				tb.seeConfig(c16OptText(c.Trusted))
+				tb.seeConfig(c16OptText(c.Allow))
+			}
+			// a server cannot be started with a text that is refused
+			if rejected(c16OptText(o.Hist[0].Trusted)) || rejected(c16OptText(o.Hist[0].Allow)) {
+				continue
+			}
+			s := e.histServer(o.Hist)
+			sink.count(fmt.Sprintf("hist_reloads_%d", len(o.Hist)-1))
+			last := o.Hist[len(o.Hist)-1]
+			if len(o.Hist) > 1 {
+				for _, kv := range [][2]interface{}{{"trusted", last.Trusted}, {"allow", last.Allow}} {
+					v := kv[1].(*string)
+					switch {
+					case v == nil:
+						sink.count(fmt.Sprintf("hist_last_reload_%s_removed", kv[0]))
+					case strings.TrimSpace(*v) == "":
+						sink.count(fmt.Sprintf("hist_last_reload_%s_empty", kv[0]))
+					default:
+						if _, err := ParseAllowedIps(*v); err != nil {
+							sink.count(fmt.Sprintf("hist_last_reload_%s_refused", kv[0]))
+						} else {
+							sink.count(fmt.Sprintf("hist_last_reload_%s_text", kv[0]))
+						}
+					}
+				}
+			}
+			peer, xr, xff := string(o.Peer), c16Strs(o.XR), c16Strs(o.XFF)
+			tb.seeRequest(peer, xr, xff)
+			nontrivial = true
+			if o.K == "histhub" {
+				req := &http.Request{RemoteAddr: peer, Header: c16Header(o.XR, o.XFF)}
+				res := s.hub.getRealUserIP(req)
+				tb.see(res)
+				var rl []string
+				for _, c := range o.Hist[1:] {
+					rl = append(rl, c16CoqOpt(c.Trusted))
+				}
+				trace = append(trace, fmt.Sprintf("(OHistHub %s %s %s %s %s, VAddr %s)", c16CoqOpt(o.Hist[0].Trusted), coqList(rl),
+					c16CoqStr(peer), c16CoqStrs(o.XR), c16CoqStrs(o.XFF), c16CoqStr(res)))
+				outs = append(outs, "addr:"+res)
+			} else {
+				ep := o.Endpoint % len(c16Paths)
+				req := httptest.NewRequest("GET", c16Paths[ep], nil)
+				req.RemoteAddr = peer
+				req.Header = c16Header(o.XR, o.XFF)
+				rec := httptest.NewRecorder()
+				s.router.ServeHTTP(rec, req)
+				sink.count(fmt.Sprintf("hist_status_%d", rec.Code))
+				var rl []string
+				for _, c := range o.Hist[1:] {
+					rl = append(rl, fmt.Sprintf("(%s, %s)", c16CoqOpt(c.Trusted), c16CoqOpt(c.Allow)))
+				}
+				trace = append(trace, fmt.Sprintf("(OHistStats %d (%s, %s) %s %s %s %s, VStatus %d)", ep, c16CoqOpt(o.Hist[0].Trusted), c16CoqOpt(o.Hist[0].Allow),
+					coqList(rl), c16CoqStr(peer), c16CoqStrs(o.XR), c16CoqStrs(o.XFF), rec.Code))
+				outs = append(outs, fmt.Sprintf("status:%d", rec.Code))
+			}
 		case "allowed":
 			ip := net.ParseIP(o.Ip)
 			if ip == nil {
@@ -895,8 +1049,63 @@ func (w *c16World) wireSafe(s string) string {
 	return b.String()
 }
 
+// many hops: 0..40 entries (with emphasis on the neighbourhood of 8, 16, 32: where a bound on
+// the number of entries, or a buffer, would sit) spread over 1..6 header lines.  The client
+// writes as many entries as it likes; each proxy on the way appends one, to the last line or
+// as a line of its own.
+func (w *c16World) xffLong() []c16Str {
+	r := w.r
+	total := pick(r, []int{7, 8, 9, 15, 16, 16, 17, 17, 18, 20, 24, 31, 32, 33, 40, r.intn(41), r.intn(41), r.intn(41)})
+	nlines := 1 + r.intn(6)
+	if r.chance(40) {
+		nlines = pick(r, []int{1, 2})
+	}
+	lines := make([][]string, nlines)
+	// with one client-chosen address repeated (what somebody filling the list would send), or all hops random
+	fill := ""
+	if r.chance(50) {
+		fill, _ = w.addr("hop")
+	}
+	for j := 0; j < total; j++ {
+		h := fill
+		// the last entries are what the proxies appended; the others the client's
+		if fill == "" || j >= total-1-r.intn(3) || r.chance(10) {
+			h = w.hop()
+		}
+		// entries are laid out in order: the line index never decreases
+		li := j * nlines / total
+		lines[li] = append(lines[li], h)
+	}
+	if nlines > 1 && r.chance(50) && total > 1 {
+		// the last entry alone on the last line
+		for li := nlines - 1; li >= 0; li-- {
+			if k := len(lines[li]); k > 0 {
+				last := lines[li][k-1]
+				lines[li] = lines[li][:k-1]
+				lines = append(lines, []string{last})
+				break
+			}
+		}
+	}
+	var out []c16Str
+	sep := pick(r, []string{", ", ", ", ",", " , "})
+	for _, l := range lines {
+		if len(l) == 0 {
+			continue
+		}
+		out = append(out, c16Str(strings.Join(l, sep)))
+	}
+	w.sink.count("xff_long")
+	w.sink.count(fmt.Sprintf("xff_long_entries_%02d_and_more", total/8*8))
+	w.sink.count(fmt.Sprintf("xff_lines_%d", len(out)))
+	return out
+}
+
 func (w *c16World) xff() []c16Str {
 	r := w.r
+	if r.chance(c16LongPercent) {
+		return w.xffLong()
+	}
 	n := pick(r, []int{0, 1, 1, 1, 2, 2, 3})
 	var lines []c16Str
 	for i := 0; i < n; i++ {
@@ -971,6 +1180,129 @@ func (w *c16World) peer() c16Str {
 		return c16Str(fmt.Sprintf("[%s]:%d", text, 1+r.intn(65535)))
 	}
 	return c16Str(fmt.Sprintf("%s:%d", text, 1+r.intn(65535)))
+}
+
+// share of the requests with a long X-Forwarded-For list
+const c16LongPercent = 6
+
+// ---- configuration histories ---------------------------------------------------------
+//
+// A server is started with a configuration file and reloaded with changed files: options are
+// added, changed, emptied, removed (with or without their section) and set to texts that are
+// refused; the requests come from addresses of the lists that were configured at some point of
+// the history (the stale ones in particular) and of the defaults.
+
+func c16GenConfText(r *vrng, pool []string, allowRefused bool) *string {
+	var v string
+	switch k := r.intn(100); {
+	case k < 30:
+		return nil // the option is not in the file
+	case k < 40:
+		v = pick(r, []string{"", "", " ", ",", " , "}) // present, nothing configured
+	case k < 48 && allowRefused:
+		v = pick(r, c16RefusedConfigs)
+	case k < 60:
+		v = c16RandNet(r)
+		if r.chance(30) {
+			v += ", " + c16RandNet(r)
+		}
+	default:
+		v = pick(r, pool)
+	}
+	return &v
+}
+
+func c16GenHistCase(r *vrng, id int, sink *caseSink) *c16Case {
+	c := &c16Case{Id: id}
+	nreload := pick(r, []int{1, 1, 2, 2, 3, 4})
+	var hist []c16Conf
+	for i := 0; i <= nreload; i++ {
+		cf := c16Conf{NoSec: r.chance(50)}
+		if i > 0 && r.chance(35) {
+			// only one of the two options changes
+			cf = hist[i-1]
+			if r.chance(50) {
+				cf.Trusted = c16GenConfText(r, c16TrustedConfigs, true)
+			} else {
+				cf.Allow = c16GenConfText(r, c16AllowConfigs, true)
+			}
+		} else {
+			cf.Trusted = c16GenConfText(r, c16TrustedConfigs, i > 0 || r.chance(5))
+			cf.Allow = c16GenConfText(r, c16AllowConfigs, i > 0 || r.chance(5))
+		}
+		hist = append(hist, cf)
+	}
+	// the class this generator is for: something was configured and the option is then taken out
+	if r.chance(50) {
+		i := 1 + r.intn(nreload)
+		if r.chance(70) {
+			if hist[i-1].Allow == nil || strings.TrimSpace(*hist[i-1].Allow) == "" {
+				v := pick(r, c16AllowConfigs[2:])
+				hist[i-1].Allow = &v
+			}
+			hist[i].Allow = nil
+		} else {
+			if hist[i-1].Trusted == nil || strings.TrimSpace(*hist[i-1].Trusted) == "" {
+				v := pick(r, c16TrustedConfigs[2:])
+				hist[i-1].Trusted = &v
+			}
+			hist[i].Trusted = nil
+		}
+	}
+	// addresses of every list of the history and of the defaults
+	trusted := c16ConfigNets("127.0.0.0/8,10.0.0.0/8,172.16.0.0/12,192.168.0.0/16")
+	allow := c16ConfigNets("127.0.0.1")
+	nops := 2 + r.intn(3)
+	for i := 0; i < nops; i++ {
+		// requests after a growing part of the history (the server is used again), the last ones after all of it
+		upto := len(hist)
+		if i < nops-2 {
+			upto = 1 + r.intn(len(hist))
+		}
+		h := hist[:upto]
+		w := &c16World{r: r, sink: sink}
+		w.trusted = append(w.trusted, trusted...)
+		w.allow = append(w.allow, allow...)
+		for j, cf := range h {
+			// the list loaded last counts several times
+			reps := 1
+			if j == len(h)-1 {
+				reps = 2
+			}
+			for ; reps > 0; reps-- {
+				w.trusted = append(w.trusted, c16ConfigNets(c16OptText(cf.Trusted))...)
+				w.allow = append(w.allow, c16ConfigNets(c16OptText(cf.Allow))...)
+			}
+		}
+		o := c16Op{K: "histstats", Hist: append([]c16Conf(nil), h...), Endpoint: r.intn(3)}
+		if r.chance(25) {
+			o.K = "histhub"
+		}
+		if o.K == "histstats" && r.chance(45) {
+			// a direct request from an address of one of the allow-lists
+			ip := c16AddrIn(r, pick(r, w.allow))
+			if r.chance(15) {
+				ip = c16AddrJustOutside(r, pick(r, w.allow))
+			}
+			text := c16TextOf(r, ip)
+			if strings.Contains(text, ":") {
+				text = "[" + text + "]"
+			}
+			o.Peer = c16Str(fmt.Sprintf("%s:%d", text, 1+r.intn(65535)))
+			if r.chance(30) {
+				o.XR = w.xr()
+			}
+		} else {
+			o.Peer = w.peer()
+			o.XR = w.xr()
+			if r.chance(50) {
+				o.XFF = w.xff()
+			}
+		}
+		c.Ops = append(c.Ops, o)
+	}
+	sink.count("case_history")
+	return c
 }
 
 const c16Alphabet = "0123456789abcdefABCDEF.:[]%, \t/-_xyz"
@@ -1183,6 +1515,79 @@ func c16Directed() []*c16Case {
 			c16Op{K: "stats", Trusted: s("fd00::1,::1"), Allow: "127.0.0.1, 2001:db8::100", Endpoint: ep, Peer: "[fd00::1]:1234", XR: l("2001:db8::100")},
 			c16Op{K: "stats", Trusted: s("fd00::1,::1"), Allow: "127.0.0.1, 2001:db8::100", Endpoint: ep, Peer: "[fd00::1]:1234", XR: l("2001:db8::99")})
 	}
+	// long X-Forwarded-For lists: the client fills the list with an address of its choice, the
+	// trusted proxy appends the real one (to the line, or as a line of its own)
+	{
+		var rops, hops, sops []c16Op
+		for _, count := range []int{40, 33, 17, 8, 15, 16} {
+			entries := make([]string, count)
+			for i := range entries {
+				entries[i] = "10.1.2.3"
+			}
+			one := strings.Join(entries, ", ") + ", 5.6.7.8"
+			rops = append(rops, c16Op{K: "realip", Trusted: s("192.168.0.0/16"), Peer: "192.168.1.2:23456", XFF: l(one)},
+				c16Op{K: "realip", Trusted: s("192.168.0.0/16"), Peer: "192.168.1.2:23456", XFF: l(strings.Join(entries, ","), "5.6.7.8")},
+				c16Op{K: "realip", Trusted: s("192.168.0.0/16"), Peer: "192.168.1.2:23456", XFF: l(strings.Join(entries[:count/2], ", "), strings.Join(entries[count/2:], ", "), "5.6.7.8, 192.168.7.7")})
+			hops = append(hops, c16Op{K: "hub", Trusted: s(""), Peer: "10.0.0.5:80", XFF: l(strings.ReplaceAll(one, "10.1.2.3", "6.6.6.6"))})
+			sops = append(sops, c16Op{K: "stats", Trusted: s("192.168.0.0/16"), Allow: "10.1.2.3", Endpoint: count % 3, Peer: "192.168.1.2:23456", XFF: l(one)},
+				c16Op{K: "stats", Trusted: s("192.168.0.0/16"), Allow: "5.6.7.8", Endpoint: count % 3, Peer: "192.168.1.2:23456", XFF: l(strings.Join(entries, ", "), "5.6.7.8")})
+		}
+		add(rops...)
+		add(hops...)
+		add(sops...)
+	}
+	// configuration histories: an allow-list / a trusted proxy is configured, changed, emptied, removed
+	{
+		o := func(v string) *string { return &v }
+		var none *string
+		type step struct{ t, a *string }
+		hist := func(nosec bool, steps ...step) []c16Conf {
+			var h []c16Conf
+			for _, st := range steps {
+				h = append(h, c16Conf{Trusted: st.t, Allow: st.a, NoSec: nosec})
+			}
+			return h
+		}
+		// one change of the allow-list after start: removed, emptied, changed, refused, added
+		for _, nosec := range []bool{false, true} {
+			for _, tr := range [][2]*string{{o("127.0.0.1, 10.9.9.9"), none}, {o("10.9.9.9"), none}, {o("10.9.9.9"), o("")}, {o("10.9.9.9"), o("10.1.2.3")},
+				{o("10.9.9.9"), o("10.1.2.3/33")}, {none, o("10.9.9.9")}, {o(""), o("10.9.9.9")}, {none, none}} {
+				h := hist(nosec, step{none, tr[0]}, step{none, tr[1]})
+				add(c16Op{K: "histstats", Hist: h, Peer: "10.9.9.9:12345"}, c16Op{K: "histstats", Hist: h, Endpoint: 1, Peer: "127.0.0.1:12345"},
+					c16Op{K: "histstats", Hist: h, Endpoint: 2, Peer: "10.1.2.3:12345"}, c16Op{K: "histstats", Hist: h[:1], Peer: "10.9.9.9:12345"})
+			}
+		}
+		for _, nosec := range []bool{false, true} {
+			full := hist(nosec, step{o("127.0.0.1"), o("127.0.0.1, 10.1.2.3")}, step{o("127.0.0.1"), o("127.0.0.1, 10.9.9.9")},
+				step{o("127.0.0.1"), none}, step{o("127.0.0.1"), o("10.9.9.9")}, step{o("127.0.0.1"), o("")},
+				step{o("127.0.0.1"), o("10.1.2.3")}, step{o("127.0.0.1"), o("nonsense")}, step{none, none})
+			var ops []c16Op
+			for n := 1; n <= len(full); n++ {
+				for _, addr := range []string{"10.1.2.3", "10.9.9.9", "127.0.0.1"} {
+					ops = append(ops, c16Op{K: "histstats", Hist: full[:n], Endpoint: n % 3, Peer: c16Str(addr + ":12345")},
+						c16Op{K: "histstats", Hist: full[:n], Endpoint: (n + 1) % 3, Peer: "127.0.0.1:4711", XR: l(addr)})
+				}
+			}
+			add(ops...)
+			// nothing configured at start, configured by a reload, taken out again
+			h2 := hist(nosec, step{none, none}, step{none, o("2001:db8::100, 8.8.8.8")}, step{none, none})
+			add(c16Op{K: "histstats", Hist: h2[:2], Peer: "8.8.8.8:1"}, c16Op{K: "histstats", Hist: h2[:2], Peer: "127.0.0.1:1"},
+				c16Op{K: "histstats", Hist: h2, Peer: "8.8.8.8:1"}, c16Op{K: "histstats", Hist: h2, Endpoint: 1, Peer: "[2001:db8::100]:1"},
+				c16Op{K: "histstats", Hist: h2, Endpoint: 2, Peer: "127.0.0.1:1"})
+			// trusted proxies: a public proxy is configured, then the option is removed (the private networks are trusted again)
+			h3 := hist(nosec, step{o("8.8.8.8"), none}, step{none, none}, step{o("1.2.3.4/31"), none}, step{o("1.2.3.4/33"), none}, step{o(" "), none})
+			var hops []c16Op
+			for n := 1; n <= len(h3); n++ {
+				var th []c16Conf
+				th = append(th, h3[:n]...)
+				for _, peer := range []string{"8.8.8.8:7", "10.0.0.5:80", "1.2.3.5:9"} {
+					hops = append(hops, c16Op{K: "histhub", Hist: th, Peer: c16Str(peer), XR: l("127.0.0.1")},
+						c16Op{K: "histstats", Hist: th, Endpoint: n % 3, Peer: c16Str(peer), XFF: l("6.6.6.6, 127.0.0.1")})
+				}
+			}
+			add(hops...)
+		}
+	}
 	// every fixed configuration text: refused, or the list it means
 	for _, cfg := range append(append([]string{}, c16TrustedConfigs...), c16RefusedConfigs...) {
 		add(c16Op{K: "parse", Trusted: s(cfg)})
@@ -1207,10 +1612,10 @@ func TestVerifC16(t *testing.T) {
 		t.Fatal("net.SplitHostPort(\"\") succeeds")
 	}
 
-	n := 1500
+	n, nhist := 1500, 100
 	hubConfigs := c16HubConfigs
 	if env.thorough() {
-		n = 24000
+		n, nhist = 24000, 1800
 		hubConfigs = append(append([]string{}, c16HubConfigs...), c16HubConfigsMore...)
 	}
 	for _, cfg := range hubConfigs {
@@ -1232,6 +1637,10 @@ func TestVerifC16(t *testing.T) {
 		for i := 0; i < n; i++ {
 			cases = append(cases, c16GenCase(newVrng(env.seed, uint64(i)), base+i, hubConfigs, sink))
 		}
+		base = len(cases)
+		for i := 0; i < nhist; i++ {
+			cases = append(cases, c16GenHistCase(newVrng(env.seed, uint64(1000000+i)), base+i, sink))
+		}
 	}
 	for _, c := range cases {
 		trace, outs, tb, nontrivial := c16Run(e, c, sink)
@@ -1243,5 +1652,7 @@ func TestVerifC16(t *testing.T) {
 	}
 	sink.stats.Histogram["servers_created"] = len(e.servers)
 	sink.stats.Histogram["trusted_proxies_reloaded"] = e.reloads
+	sink.stats.Histogram["history_servers_started"] = e.histStarts
+	sink.stats.Histogram["history_reloads"] = e.histReloads
 	sink.close("seeded requests (peer, X-Real-IP lines, X-Forwarded-For lines, trusted-proxy and allow-list configuration given as text and parsed by the model) on the real ParseAllowedIps, GetRealUserIP, Hub.getRealUserIP, AllowedIps.Allowed and the stats / serverinfo / metrics handlers of a BackendServer; non-trivial = headers present (trusted peer: header logic decides; untrusted peer: forged headers must be ignored) or an address inside a configured network; distinct = distinct (inputs, outputs)")
 }
